@@ -67,7 +67,10 @@ type oModSpec struct {
 	// DoneWithLast: report done in the same ProduceInfo call that emits the end of the last round (replies to that
 	// round are then not owed by the device)
 	DoneWithLast bool
-	Idle         int // ProduceInfo calls that emit nothing before the first round
+	// DoneWithActive: the module has nothing to say: it reports done in the very call that sends active=true (the
+	// device's automatic reply then arrives when the next module is already current)
+	DoneWithActive bool
+	Idle           int // ProduceInfo calls that emit nothing before the first round
 }
 
 type dModSpec struct {
@@ -152,6 +155,10 @@ func (m *oMod) ProduceInfo(ctx context.Context, p *serviceinfo.Producer) (bool, 
 		b, _ := cbor.Marshal(true)
 		if err := p.WriteChunk("active", b); err != nil {
 			return false, false, err
+		}
+		if m.spec.DoneWithActive {
+			m.done = true
+			return false, true, nil
 		}
 		return false, false, nil
 	}
@@ -478,6 +485,10 @@ func judge(s scen, o outcome) []viol {
 			add("device-stream-differs", "device module %q received %s, owner module wrote %s", m.Name, descKV(got), descKV(want))
 		}
 		got, want := merge(ownGot[m.Name]), merge(wantOwn)
+		if m.DoneWithActive {
+			want = nil
+			got = nil
+		}
 		if m.DoneWithLast {
 			// replies to the final round may or may not arrive; everything owed must be a prefix
 			if len(got) >= len(want) {
@@ -697,11 +708,23 @@ func scenarios(thorough bool) []scen {
 			s.Owner, s.Device = []oModSpec{ghost, m1}, nil
 		case 7:
 			s.Owner, s.Device = []oModSpec{{Name: "m1"}, m2}, []dModSpec{d1, d2}
+		case 8: // m1 finishes with its last data; the device's answers to it arrive when m2 is current
+			m1.DoneWithLast = true
+			s.Owner, s.Device = []oModSpec{m1, m2}, []dModSpec{d1, d2}
+		case 9: // m1 finishes in the call that activates it; the automatic active reply arrives when m2 is current
+			s.Owner, s.Device = []oModSpec{{Name: "m1", DoneWithActive: true}, m2}, []dModSpec{d1, d2}
+		case 10: // the same with a module unknown to the device in between
+			s.Owner, s.Device = []oModSpec{{Name: "m1", DoneWithActive: true}, ghost, m2}, []dModSpec{d1, d2}
+		case 11: // three modules, the middle one finishing with its last data, the last one finishing with data too
+			m3 := oModSpec{Name: "m3", Rounds: [][]msgSpec{{{Name: "x", Size: 7, Seed: 3}}}, DoneWithLast: true}
+			d3 := baseDevice("m3", map[string][]msgSpec{"x": {{Name: "rx", Size: 4, Seed: 2, Yield: true}, {Name: "rx2", Size: 2, Seed: 1}}}, nil)
+			m2.DoneWithLast = true
+			s.Owner, s.Device = []oModSpec{m1, m2, m3}, []dModSpec{d1, d2, d3}
 		}
 		return s
 	}
 	for _, p := range pairs {
-		for v := 0; v <= 7; v++ {
+		for v := 0; v <= 11; v++ {
 			add(two(p, v))
 		}
 	}
@@ -786,6 +809,12 @@ func schedulesShard(shard, n int, thorough bool) *schedshard.Report {
 		bound := 1 // two preemptions over ~700 scheduling points per run are out of reach; thorough adds scenarios instead
 		sc := schedshard.Scenario{Name: s.Label, Bound: bound, Outcomes: map[string]int{}}
 		var commit func() // committed by visit: once per execution over all shards
+		v0, t0 := len(rep.Violations), time.Now()
+		budget := 8 * time.Minute
+		if thorough {
+			budget = 60 * time.Minute
+		}
+		explore.Stop = func() bool { return len(rep.Violations)-v0 >= 3 || time.Since(t0) > budget }
 		st := explore.ExploreShard(bound, shard, n, func(c *explore.Ctx) {
 			var o outcome
 			vres := vsync.Run(c.Choose, 200000, func() { o = wd.run(s) })
@@ -816,6 +845,9 @@ func schedulesShard(shard, n int, thorough bool) *schedshard.Report {
 			}
 		}, func(*explore.Ctx) { commit() })
 		sc.Executions, sc.MaxDepth = st.Executions, st.MaxDepth
+		if st.Stopped && len(rep.Violations)-v0 < 3 {
+			rep.Capped = append(rep.Capped, fmt.Sprintf("scenario %q: shard %d stopped at its wall-clock budget after %d executions", sc.Name, shard, st.Executions))
+		}
 		rep.Diverged = append(rep.Diverged, st.Diverged...)
 		rep.Scenarios = append(rep.Scenarios, sc)
 	}
@@ -857,6 +889,9 @@ func schedules(thorough bool) {
 	r.Evaluations.Add(rep.Evals)
 	for _, v := range rep.Violations {
 		r.Violation(v.Key, v.What, v.Replay)
+	}
+	for _, c := range rep.Capped {
+		r.Capped(c)
 	}
 	for _, sc := range rep.Scenarios {
 		r.States.Add(int64(sc.Executions))
